@@ -27,7 +27,10 @@ RULE = ("cases = corpus + a systematic sweep of chunking shapes (n rules on one 
         "alike but differ in type - 25 / 25.0 / \"25\", true / \"true\" - as twins of each other, few threads so that they share a "
         "worker's chunk), 1/6 sessions (ONE engine object per configuration run on two or three different KnowledgeBase objects of "
         "the same name: same number of rules (same version()) but other conditions / saliences / enabled flags / names, the same "
-        "rules on other facts, or one rule more or fewer); debug_mode = true in half of the cases (configured engine, sequential "
+        "rules on other facts, or one rule more or fewer); in a quarter of the fact stores (plain, session stages) and a third of the "
+        "two-field look-alike stores, FLAT top-level keys spelled like the dotted fields (`~U.x` = add_value(\"U.x\", v)) beside the object "
+        "field of the same spelling holding another value (or its look-alike in another type), beside an object that lacks the field, "
+        "or with no object at all - the model's lookup is get_nested first, flat key as the fallback; debug_mode = true in half of the cases (configured engine, sequential "
         "engine, or both; the engine's stdout goes to /dev/null). Each stage of a case is executed on the real "
         "ParallelRuleEngine::execute_parallel 2+reps times on engine objects that live for the whole case: once with enabled=false "
         "(the engine's own sequential path, S), "
@@ -49,7 +52,7 @@ TRUSTED = [
 ]
 ASSUMPTIONS = [
     "typed core: Single(field op scalar literal | field op string literal-or-other-field) / Compound And,Or / Not conditions over scalar-valued "
-    "(Integer, integral Number, Boolean, String) flat or one-level nested facts, operators == != > >= < <= (== / != type-sensitive as Value's "
+    "(Integer, integral Number, Boolean, String) flat or one-level nested facts (incl. flat keys spelled like a nested path), operators == != > >= < <= (== / != type-sensitive as Value's "
     "PartialEq, ordering through to_number), ActionType::Set assignments; integers and integral floats within +-2^53 (i as f64 exact), string "
     "literals are decimal integers or words that Rust's f64 parser rejects; no Null / Array / Expression values; no custom functions registered, no accumulate/exists/forall/multifield/function-call conditions "
     "(accumulate conditions and registered custom functions can write the shared facts: outside the theorem's ReadOnly hypothesis)",
